@@ -2,7 +2,7 @@
     Statements only; proofs in Proofs/InterpLaws.v and Proofs/InterpInv.v. *)
 From Coq Require Import List ZArith NArith Bool.
 From RRSS Require Import Base.Outcome Base.Chars Base.F64 Exec.Val Exec.Ops Front.Ast Exec.Env Exec.Interp.
-From RRSS Require Import Proofs.InterpInv Proofs.InterpLaws.
+From RRSS Require Import Proofs.InterpInv Proofs.InterpLaws Proofs.InterpIO.
 Import ListNotations.
 
 (** each say writes exactly one line: the text and a line feed *)
@@ -49,4 +49,38 @@ Theorem C08_no_crash_under_faults :
   forall prof fuel p c, match exec_program prof fuel p c with XPanic _ | XUB _ => False | _ => True end.
 Proof. exact exec_no_crash. Qed.
 
+(** whole runs: all the input and output of an execution — successful or stopped by an error — is a
+    sequence of listen / say operations on the channels ([io_steps]: each step is one [chan_input] or one
+    [chan_output]); nothing else in the interpreter touches them *)
+Theorem C08_run_is_listens_and_says :
+  forall prof fuel p c,
+  match exec_program prof fuel p c with
+  | XOk _ e' | XErr _ e' => exists tr, io_steps c tr (chan e')
+  | _ => True
+  end.
+Proof. exact exec_program_io. Qed.
+
+(** so, with no write fault, the output is exactly the lines said, whole and in order ... *)
+Theorem C08_output_is_the_lines_said :
+  forall c tr c', io_steps c tr c' -> no_fault tr = true ->
+  out_bytes c' = out_bytes c ++ flat_map ev_line (outs tr).
+Proof. exact trace_output. Qed.
+
+(** ... with a fault, everything written before it is still there, in place ... *)
+Theorem C08_output_survives_faults :
+  forall c tr c', io_steps c tr c' -> exists more, out_bytes c' = out_bytes c ++ more.
+Proof. exact trace_output_prefix. Qed.
+
+(** ... and the input is consumed from the front, exactly one line per listen, in order *)
+Theorem C08_input_consumed_by_lines :
+  forall c tr c', io_steps c tr c' -> in_steps (in_rest c) (ins tr) (in_rest c').
+Proof. exact trace_input. Qed.
+
+Theorem C08_line_shape :
+  forall s l r fnd, take_line s [] = (l, r, fnd) ->
+  ~ In 10%N l /\ (if fnd then s = l ++ [10%N] ++ r else s = l /\ r = []).
+Proof. exact line_shape. Qed.
+
 Print Assumptions C08_listen_consumes_one_line.
+Print Assumptions C08_run_is_listens_and_says.
+Print Assumptions C08_input_consumed_by_lines.
